@@ -306,7 +306,7 @@ impl AddressRange {
         })
     }
 
-    fn limited_count(self, limit: u16) -> Result<Self, InvalidRange> {
+    pub(crate) fn limited_count(self, limit: u16) -> Result<Self, InvalidRange> {
         if self.count > limit {
             return Err(InvalidRange::CountTooLargeForType(self.count, limit));
         }
